@@ -826,6 +826,12 @@ def conflictUpdate : Nat → Env → String → String → String → Table → 
         | some c => do
           let v ← evalExpr (cbs n) te env' c
           pure ((← liftR v.truth) == some true)
+      -- ExecOnConflictUpdate locks the conflicting tuple (heap_lock_tuple, LockTupleExclusive): a row that
+      -- another in-progress transaction holds — also through a mere SELECT … FOR UPDATE — makes the
+      -- statement wait
+      match ← heldByOther existing with
+      | some x => throw (.blocked s!"row:{full}:{existing.rid}:xid:{x}" x 0)
+      | none => pure ()
       -- the row is locked whether or not the WHERE passes
       lockVersion full existing.rid
       if !pass then pure acc
